@@ -19,6 +19,7 @@ import (
 	"verif/harness/cachex"
 	"verif/harness/dnsgen"
 	"verif/harness/hx"
+	"verif/harness/quiesce"
 )
 
 func TestMain(m *testing.M) { hx.Main(m) }
@@ -237,6 +238,7 @@ type run struct {
 	p        *cachex.Plugin
 	mu       sync.Mutex
 	seen     []*dns.Msg // every message handed to or out of the cache (foreground)
+	bgSeen   []*dns.Msg // messages produced for background (lazy) refreshes; mutable once the refresh has finished
 	nextID   uint16
 	storedT0 []time.Time // earliest possible store time per question (zero = never stored)
 	bg       sync.WaitGroup
@@ -263,6 +265,9 @@ func (r *run) ask(q int, id uint16) (*dns.Msg, bool, error) {
 		if background {
 			a := unpack(r.c.Answers[q])
 			a.Id = c.Q().Id
+			r.mu.Lock()
+			r.bgSeen = append(r.bgSeen, a)
+			r.mu.Unlock()
 			c.SetResponse(a)
 			return nil
 		}
@@ -343,6 +348,7 @@ func runCase(c Case, ctx *hx.Ctx) *hx.Failure {
 	r.p = cachex.New(1024, lazy)
 	defer r.p.Close()
 	hits, mutBeforeHit, stale, bursts := 0, false, 0, 0
+	bgMutable := 0
 	mutated := make([]bool, len(c.Names)) // a mutation happened after the question was stored
 	anyMut := false
 	for _, op := range c.Ops {
@@ -381,6 +387,25 @@ func runCase(c Case, ctx *hx.Ctx) *hx.Failure {
 				r.mu.Unlock()
 			}
 		case "mutate":
+			// the message a lazy refresh got from downstream is "the originally stored message" of that refresh: once the
+			// refresh goroutine is gone it is fair game too
+			r.mu.Lock()
+			pendingBg := len(r.bgSeen)
+			r.mu.Unlock()
+			if gone := pendingBg > 0 && len(quiesce.WaitGone("singleflight", 2*time.Second)) == 0 && len(quiesce.WaitGone("doLazyUpdate", time.Second)) == 0; gone {
+				// seeing the goroutine gone is no happens-before edge for the race detector; taking the store's shard locks
+				// (a dump ranges over every shard) after the refresh released them is one
+				if _, err := r.p.Dump(); err != nil {
+					return hx.Failf("C10/harness", "dump: %v", err)
+				}
+				r.mu.Lock()
+				if len(r.bgSeen) > 0 {
+					bgMutable += len(r.bgSeen)
+					r.seen = append(r.seen, r.bgSeen...)
+					r.bgSeen = nil
+				}
+				r.mu.Unlock()
+			}
 			r.mu.Lock()
 			if len(r.seen) > 0 {
 				m := r.seen[op.Target%len(r.seen)]
@@ -497,6 +522,9 @@ func runCase(c Case, ctx *hx.Ctx) *hx.Failure {
 		}
 	}
 	ctx.Classf("lazy=%v", c.Lazy)
+	if bgMutable > 0 {
+		ctx.Class("refresh-message-exposed-to-mutation")
+	}
 	if stale > 0 {
 		ctx.Class("stale-injected")
 	}
